@@ -45,11 +45,13 @@ Max(a, b) == IF a > b THEN a ELSE b
 Min(a, b) == IF a < b THEN a ELSE b
 
 \* count entry of a fresh node from its children's entries (Bdd::node, cfg adhoccounting)
-CntOf(lc, hc) ==
+CntOf2(lc, hc, models) ==
   LET ld == lc[5]  hd == hc[5]
-      le == IF ~AdHocModels THEN 0 ELSE IF ld > hd THEN 1 ELSE Pow2(hd - ld)
-      he == IF ~AdHocModels THEN 0 ELSE IF ld > hd THEN Pow2(ld - hd) ELSE 1
+      le == IF ~models THEN 0 ELSE IF ld > hd THEN 1 ELSE Pow2(hd - ld)
+      he == IF ~models THEN 0 ELSE IF ld > hd THEN Pow2(ld - hd) ELSE 1
   IN << lc[1] * le + hc[1] * he, lc[2] * le + hc[2] * he, lc[3] + hc[3], lc[4] + hc[4], Max(ld, hd) + 1 >>
+
+CntOf(lc, hc) == CntOf2(lc, hc, AdHocModels)
 
 \* Bdd::node
 MkNode(S, var, lo, hi) ==
@@ -138,10 +140,10 @@ Ordered(ns, nv) == \A h \in HandlesN(ns) : h > 1 =>
      /\ n[1] \in 0..(nv - 1) /\ n[2] < h /\ n[3] < h
      /\ (n[2] > 1 => ns[n[2] + 1][1] > n[1])
      /\ (n[3] > 1 => ns[n[3] + 1][1] > n[1])
-NoDup(ns) == \A h1, h2 \in HandlesN(ns) : ns[h1 + 1] = ns[h2 + 1] => h1 = h2
+NoDupNodes(ns) == \A h1, h2 \in HandlesN(ns) : ns[h1 + 1] = ns[h2 + 1] => h1 = h2
 Canonical(ns, nv) == LET D == [h \in HandlesN(ns) |-> DenN(ns, h, nv)] IN
                      \A h1, h2 \in HandlesN(ns) : D[h1] = D[h2] => h1 = h2
-TableOK(ns, nv) == ConstOK(ns) /\ Reduced(ns) /\ Ordered(ns, nv) /\ NoDup(ns) /\ Canonical(ns, nv)
+TableOK(ns, nv) == ConstOK(ns) /\ Reduced(ns) /\ Ordered(ns, nv) /\ NoDupNodes(ns) /\ Canonical(ns, nv)
 
 \* unique table = node table
 UniqOK(S) == /\ DOMAIN S.uniq = { S.nodes[h + 1] : h \in 2..(Size(S) - 1) }
